@@ -78,8 +78,8 @@ def nat_list(vals):
 
 
 class Var:
-    def __init__(self, ty, nonempty=False):
-        self.ty, self.nonempty = ty, nonempty
+    def __init__(self, ty, nonempty=False, odd=False, value=None):
+        self.ty, self.nonempty, self.odd, self.value = ty, nonempty, odd, value
 
 
 def _module_bindings(tree, name):
@@ -104,13 +104,16 @@ def _module_bindings(tree, name):
 class FnTr:
     """translator of one module-level function"""
 
-    def __init__(self, fdef, spec, tree):
+    def __init__(self, fdef, spec, tree, emitted=None):
         self.f, self.spec, self.tree = fdef, spec, tree
+        self.emitted = emitted or {}       # functions of the same group translated before this one: name -> FnTr
         cfg = spec.get('c06') or {}
         self.maps = dict(cfg.get('maps') or {})
         self.sets = dict(cfg.get('sets') or {})
         self.hexmaps = dict(cfg.get('hexmaps') or {})
         self.covers = {k: set(v) for k, v in (cfg.get('covers') or {}).items()}   # map name -> set names inside its keys
+        self.regex_split = dict(cfg.get('regex_split') or {})     # compiled regex -> (pattern it must have, runtime function)
+        self.consts = dict(spec.get('consts') or {})              # parameter -> the value the tie fixes it to (its default)
         self.uses_nfc = False
         self.pre = []
         self.aliases = {}      # append alias -> list variable
@@ -120,8 +123,14 @@ class FnTr:
         if a.vararg or a.kwarg or a.kwonlyargs or a.posonlyargs:
             raise Unsupported(fdef, 'only plain positional parameters')
         names = [x.arg for x in a.args]
-        if names != list(spec['params']):
-            raise Unsupported(fdef, 'parameters %r, the spec declares %r' % (names, list(spec['params'])))
+        if [n for n in names if n not in self.consts] != list(spec['params']) or set(self.consts) - set(names):
+            raise Unsupported(fdef, 'parameters %r, the spec declares %r + constants %r' % (
+                names, list(spec['params']), list(self.consts)))
+        defaults = dict(zip(names[len(names) - len(a.defaults):], a.defaults))
+        for n, v in self.consts.items():       # a parameter fixed to its default: the tie is about the call without it
+            d = defaults.get(n)
+            if not (isinstance(d, ast.Constant) and type(d.value) is type(v) and d.value == v):
+                raise Unsupported(fdef, 'the default of %s is not the declared constant %r' % (n, v))
         self.params = [(n, parse_ty(t)) for n, t in spec['params'].items()]
         self.result = parse_ty(spec['result'])
         self.stores = {}
@@ -132,7 +141,8 @@ class FnTr:
                 raise Unsupported(x)
             if isinstance(x, ast.Name) and isinstance(x.ctx, (ast.Store, ast.Del)):
                 self.stores[x.id] = self.stores.get(x.id, 0) + 1
-        for table in list(self.maps) + list(self.sets) + list(self.hexmaps) + ['to_unicode', 'normalize']:
+        for table in list(self.maps) + list(self.sets) + list(self.hexmaps) + list(self.regex_split) \
+                + ['to_unicode', 'normalize']:
             if table in self.stores or table in names:
                 raise Unsupported(fdef, '%s is rebound in the function' % table)
 
@@ -143,6 +153,20 @@ class FnTr:
         if len(b) != 1 or not isinstance(b[0], ast.Assign) or len(b[0].targets) != 1 \
                 or not isinstance(b[0].targets[0], ast.Name):
             raise Unsupported(node, '%s is not bound exactly once by a module-level assignment' % name)
+
+    def module_regex(self, name, pattern, node):
+        """`name = re.compile(<the literal `pattern`>)`, once, at top level, `re` the standard module"""
+        b = _module_bindings(self.tree, name)
+        ok = len(b) == 1 and isinstance(b[0], ast.Assign) and len(b[0].targets) == 1 \
+            and isinstance(b[0].targets[0], ast.Name) and isinstance(b[0].value, ast.Call) \
+            and ast.unparse(b[0].value.func) == 're.compile' and not b[0].value.keywords \
+            and len(b[0].value.args) == 1 and isinstance(b[0].value.args[0], ast.Constant) \
+            and b[0].value.args[0].value == pattern
+        rb = _module_bindings(self.tree, 're')
+        ok = ok and len(rb) == 1 and isinstance(rb[0], ast.Import) and any(
+            a.name == 're' and a.asname in (None, 're') for a in rb[0].names)
+        if not ok:
+            raise Unsupported(node, '%s is not bound once by re.compile(%r)' % (name, pattern))
 
     def module_def(self, name, node):
         b = _module_bindings(self.tree, name)
@@ -204,6 +228,11 @@ class FnTr:
             if ty not in (STR, BYTES):
                 raise Unsupported(node, 'isinstance of a %s' % (ty,))
             return (ty == STR) == (node.args[1].id == 'str')
+        if isinstance(node, ast.Compare) and len(node.ops) == 1 and isinstance(node.ops[0], (ast.Is, ast.IsNot)) \
+                and isinstance(node.left, ast.Name) and node.left.id in env and env[node.left.id].ty == 'Const' \
+                and isinstance(node.comparators[0], ast.Constant) and node.comparators[0].value is None:
+            # a parameter fixed to its (non-None) default
+            return (env[node.left.id].value is None) == isinstance(node.ops[0], ast.Is)
         text, ty = self.ex(node, env)
         if ty == BOOL:
             return text
@@ -217,6 +246,8 @@ class FnTr:
             return self.const(node)
         if isinstance(node, ast.Name):
             if node.id in env:
+                if env[node.id].ty == 'Const':
+                    raise Unsupported(node, 'use of the constant parameter %s as a value' % node.id)
                 return mangle(node.id), env[node.id].ty
             raise Unsupported(node, 'name %s is not a parameter / local' % node.id)
         if isinstance(node, ast.List):
@@ -372,6 +403,48 @@ class FnTr:
                 if ta in (CHR, BYTE, NAT, BOOL):
                     raise Unsupported(node, 'len of a %s' % (ta,))
                 return '%s.length' % a, NAT
+        if isinstance(f, ast.Name) and f.id not in env and f.id in self.emitted and f.id not in self.stores:
+            # a function of the same group translated before this one
+            callee = self.emitted[f.id]
+            self.module_def(f.id, node)
+            if len(node.args) != len(callee.params) or callee.consts and False:
+                raise Unsupported(node, 'call of %s with %d arguments' % (f.id, len(node.args)))
+            args = []
+            for a, (pn, pt) in zip(node.args, callee.params):
+                t, ta = self.as_seq(*self.ex(a, env), node)
+                if ta != pt:
+                    raise Unsupported(node, 'argument %s of %s: a %s, declared %s' % (pn, f.id, ta, pt))
+                args.append(t)
+            for what in callee.pre:
+                w = '%s (in %s)' % (what, f.id)
+                if w not in self.pre:
+                    self.pre.append(w)
+            if callee.uses_nfc:
+                self.uses_nfc = True
+            return '(%s %s%s)' % (callee.spec['lean_name'], 'nfc ' if callee.uses_nfc else '', ' '.join(args)), callee.result
+        if isinstance(f, ast.Attribute) and isinstance(f.value, ast.Name) and f.value.id in self.regex_split \
+                and f.value.id not in env and f.attr == 'split' and len(node.args) == 1:
+            pattern, op = self.regex_split[f.value.id]
+            self.module_regex(f.value.id, pattern, node)
+            a, ta = self.ex(node.args[0], env)
+            if ta != STR:
+                raise Unsupported(node, 'regex split of a %s' % (ta,))
+            return '(PyRtC06.%s %s)' % (op, a), LIST(STR)
+        if isinstance(f, ast.Attribute) and f.attr == 'decode' and len(node.args) == 2:
+            vals = []
+            for a in node.args:
+                if isinstance(a, ast.Constant):
+                    vals.append(a.value)
+                elif isinstance(a, ast.Name) and a.id in env and env[a.id].ty == 'Const':
+                    vals.append(env[a.id].value)
+                else:
+                    raise Unsupported(node, 'decode with a codec / error handler that is not a constant')
+            if vals[0] not in UTF8_NAMES or vals[1] != 'replace':
+                raise Unsupported(node, 'decode(%r, %r)' % tuple(vals))
+            a, ta = self.ex(f.value, env)
+            if ta != BYTES:
+                raise Unsupported(node, 'decode of a %s' % (ta,))
+            return '(PyRtC06.decodeUtf8Replace %s)' % a, STR
         if isinstance(f, ast.Attribute):
             if f.attr == 'encode' and len(node.args) == 1 and isinstance(node.args[0], ast.Constant) \
                     and node.args[0].value in UTF8_NAMES:
@@ -501,15 +574,19 @@ class FnTr:
                         raise Unsupported(y, 'append alias used other than by calling it')
                 self.aliases[x] = lst
                 return self.stmts(rest, env, k)
+            if x in env and env[x].ty == 'Const':
+                raise Unsupported(st, 'rebinding of the constant parameter %s' % x)
             a, ta = self.ex(v, env)
             if ta in (CHR, BYTE):
                 raise Unsupported(st, 'binding of an element')
             ne = isinstance(v, ast.List) or (isinstance(v, ast.Call) and isinstance(v.func, ast.Attribute)
                                              and v.func.attr == 'split')
+            odd = ne and isinstance(v, ast.Call) and isinstance(v.func.value, ast.Name) \
+                and v.func.value.id in self.regex_split and v.func.value.id not in env
             if any(lst == x for lst in self.aliases.values()):
                 raise Unsupported(st, 'rebinding of a list with an append alias')
             env2 = dict(env)
-            env2[x] = Var(ta, nonempty=ne)
+            env2[x] = Var(ta, nonempty=ne, odd=odd)
             return 'let %s := %s\n%s' % (mangle(x), a, self.stmts(rest, env2, k))
         if isinstance(st, ast.If):
             c = self.truth(st.test, env)
@@ -538,6 +615,9 @@ class FnTr:
             if st.orelse or not isinstance(st.target, ast.Name) or st.target.id in env:
                 raise Unsupported(st, 'for loop with else / pattern target / shadowing target')
             self.no_escape(st.body)
+            rng = self.range_pairs(st, env)
+            if rng:
+                return self.for_pairs(st, rng, rest, env, k)
             it, tit = self.ex(st.iter, env)
             et = self.elem_ty(tit, st.iter)
             envb = dict(env)
@@ -561,6 +641,73 @@ class FnTr:
         if isinstance(st, ast.Try):
             return self.try_(st, rest, env, k)
         raise Unsupported(st)
+
+    def range_pairs(self, st, env):
+        """`for i in range(1, len(L), 2)` with `L` a list of odd length (a regex split with one group) -> L"""
+        it = st.iter
+        if not (isinstance(it, ast.Call) and isinstance(it.func, ast.Name) and it.func.id == 'range'
+                and 'range' not in env and 'range' not in self.stores and not _module_bindings(self.tree, 'range')):
+            return None
+        if it.keywords or len(it.args) != 3:
+            raise Unsupported(it, 'range other than range(1, len(L), 2)')
+        a, b, c = it.args
+        ok = isinstance(a, ast.Constant) and type(a.value) is int and a.value == 1 \
+            and isinstance(c, ast.Constant) and type(c.value) is int and c.value == 2 \
+            and isinstance(b, ast.Call) and isinstance(b.func, ast.Name) and b.func.id == 'len' and 'len' not in env \
+            and 'len' not in self.stores and len(b.args) == 1 and not b.keywords and isinstance(b.args[0], ast.Name) \
+            and b.args[0].id in env and env[b.args[0].id].odd
+        if not ok:
+            raise Unsupported(it, 'range other than range(1, len(L), 2) with L of odd length')
+        return b.args[0].id
+
+    def for_pairs(self, st, lst, rest, env, k):
+        """the body may use `i` only as `L[i]` and `L[i + 1]`: both exist for every i of the range because len(L) is
+        odd -> a fold over `PyRtC06.pairsFrom1 L`"""
+        i = st.target.id
+        va, vn = i + '_item', i + '_next'
+        if va in env or vn in env or va in self.stores or vn in self.stores:
+            raise Unsupported(st, 'name clash with %s / %s' % (va, vn))
+
+        def is_l(n):
+            return isinstance(n, ast.Name) and n.id == lst
+
+        class R(ast.NodeTransformer):
+            def visit_Subscript(s, n):     # noqa: N805
+                if is_l(n.value) and isinstance(n.ctx, ast.Load):
+                    sl = n.slice
+                    if isinstance(sl, ast.Name) and sl.id == i:
+                        return ast.copy_location(ast.Name(id=va, ctx=ast.Load()), n)
+                    if isinstance(sl, ast.BinOp) and isinstance(sl.op, ast.Add) and isinstance(sl.left, ast.Name) \
+                            and sl.left.id == i and isinstance(sl.right, ast.Constant) and type(sl.right.value) is int \
+                            and sl.right.value == 1:
+                        return ast.copy_location(ast.Name(id=vn, ctx=ast.Load()), n)
+                return s.generic_visit(n)
+        import copy
+        body = [R().visit(copy.deepcopy(b)) for b in st.body]
+        for b in body:
+            for x in ast.walk(b):
+                if isinstance(x, ast.Name) and x.id in (i, lst):
+                    raise Unsupported(st, 'the loop body uses %s other than as %s[%s] / %s[%s + 1]' % (x.id, lst, i, lst, i))
+        elt = env[lst].ty[1]
+        envb = dict(env)
+        envb[va] = Var(elt)
+        envb[vn] = Var(elt)
+        names = self.assigned(body, envb)
+        if not names:
+            raise Unsupported(st, 'loop without effect')
+
+        def fin(e2):
+            for n in names:
+                if e2[n].ty != env[n].ty:
+                    raise Unsupported(st, '%s changes its type in the loop' % n)
+            return self.state(names)
+        text = self.stmts(body, envb, fin)
+        env2 = dict(env)
+        for n in names:
+            env2[n] = Var(env[n].ty, nonempty=env[n].nonempty)
+        return 'let %s := (PyRtC06.pairsFrom1 %s).foldl (fun %s (%s, %s) =>\n%s) %s\n%s' % (
+            self.state(names), mangle(lst), self.state(names), mangle(va), mangle(vn), ind(text), self.state(names),
+            self.stmts(rest, env2, k))
 
     def try_(self, st, rest, env, k):
         """try: <S1 whose value IS `H[K]`, H a declared hex map>; <more> except KeyError: <handler>
@@ -623,6 +770,8 @@ class FnTr:
     # ------------------------------------------------------------------------------------------ the definition
     def emit(self):
         env = {n: Var(t) for n, t in self.params}
+        for n, v in self.consts.items():
+            env[n] = Var('Const', value=v)
         body = self.stmts(list(self.f.body), env, None)
         ps = ''.join(' (%s : %s)' % (mangle(n), lean_ty(t)) for n, t in self.params)
         if self.uses_nfc:
@@ -652,7 +801,7 @@ def check_covers(mod, spec):
 def translate_source(src, specs, module_name, rel, mod=None):
     tree = ast.parse(src)
     short = module_name.split('.')[-1]
-    parts, infos, head = [], [], []
+    parts, infos, head, emitted = [], [], [], {}
     for spec in specs:
         info = {'function': '%s.%s' % (module_name, spec['qualname']), 'source_file': rel, 'lines': None,
                 'lean_def': 'Src.%s.%s' % (short, spec['lean_name']), 'lean_pre': None,
@@ -663,8 +812,9 @@ def translate_source(src, specs, module_name, rel, mod=None):
             info['lines'] = '%d-%d' % (fdef.lineno, fdef.end_lineno)
             if mod is not None:
                 check_covers(mod, spec)
-            tr = FnTr(fdef, spec, tree)
+            tr = FnTr(fdef, spec, tree, emitted)
             text = tr.emit()
+            emitted[spec['qualname']] = tr
             if tr.pre:
                 info['lean_pre'] = '; '.join(tr.pre)
             info['operations'] = sorted({'nfc'} if tr.uses_nfc else set())
